@@ -5,7 +5,6 @@ since CasADi's structural sparsity over-approximates true dependence) must be co
 allowed-dependency relation derived from the spec (lib/deps.py).  Confirmed numerically on both
 engines: perturbing a not-allowed input entry leaves the output entry bit-identical.
 """
-import re
 
 from hypothesis import strategies as st
 
@@ -69,25 +68,21 @@ def check_case(case, ctx):
     if crashed(r):
         return
     F, net, els = r
-    names = cas.names_by_id(sp)
-    by_name = {v: k for k, v in names.items()}
+    from lib import layout
+
+    lay = layout.Layout(sp, layout.element_order(net, els))
     n_in, n_out = F.n_in(), F.n_out()
     J = guarded(ctx, "jac_sparsity", F.jac_sparsity)
     if crashed(J):
         return
     if len(J) != n_in * n_out:
         raise AssertionError("unexpected jac_sparsity layout")
-
-    def split(name, out):
-        m = re.match(r"^(rho|v_ctrl|v|w|d|r|q)_(.+?)(\+?)$", name)
-        if not m or (m.group(3) == "+") != out or m.group(2) not in by_name:
-            return None
-        return by_name[m.group(2)], m.group(1)
-
-    ins = [split(n, False) for n in F.name_in()]
-    outs = [split(n, True) for n in F.name_out()]
-    if None in ins or None in outs:
-        ctx.fail("names", f"cannot map argument/result names to elements: {F.name_in()} {F.name_out()}")
+    # positional mapping of arguments/results to (element, variable): names are C04's business
+    ins = [(items[0][0], items[0][1]) for _n, items in lay.inputs(0)]
+    outs = [(items[0][0], items[0][1]) for _n, items in lay.outputs(0)]
+    if len(ins) != n_in or len(outs) != n_out or [F.numel_in(k) for k in range(n_in)] != lay.sizes(lay.inputs(0)) or [
+            F.numel_out(k) for k in range(n_out)] != lay.sizes(lay.outputs(0)):
+        ctx.fail("signature", f"arguments/results do not have the per-element layout: {F.name_in()} {F.name_out()}")
         return
     nnz = 0
     for oi, (oid, ovar) in enumerate(outs):
@@ -106,14 +101,18 @@ def check_case(case, ctx):
     # numeric perturbation on both engines
     entries = deps.input_entries(sp)
     base_np = guarded(ctx, "numpy-step", S.step_numpy, sp, state, case["opts"])
-    base_cs = guarded(ctx, "call", cas.eval_level0, F, sp, state)
+    def call_at(stt):
+        res = F(*lay.args(0, stt))
+        return (lay.parse(0, list(res) if isinstance(res, (list, tuple)) else [res])[0],)
+
+    base_cs = guarded(ctx, "call", call_at, state)
     for idx in case["perturb"]:
         (iid, ivar, ik) = entries[idx]
         st2 = {i: {v: list(x) for v, x in s.items()} for i, s in state.items()}
         st2[iid][ivar][ik] = st2[iid][ivar][ik] * 1.37 + 0.11
         for tag, base, run in (
             ("numpy", base_np, lambda: S.step_numpy(sp, st2, case["opts"])),
-            (sym, base_cs, lambda: cas.eval_level0(F, sp, st2)),
+            (sym, base_cs, lambda: call_at(st2)),
         ):
             if crashed(base):
                 continue
